@@ -32,7 +32,12 @@ var wtChoices = []wtChoice{
 	{0.05, 10_000_000}, {0.3, 10_000_000}, {2, 50_000_000}, {10, 200_000_000}, {60, 1_000_000_000},
 }
 
-func tableName(i int) string { return fmt.Sprintf("t%d", i) }
+func tableName(i int) string {
+	if i >= 10 {
+		return fmt.Sprintf("l%d", i-10) // a symbolic link l<k>.csv -> t<k>.csv (C20)
+	}
+	return fmt.Sprintf("t%d", i)
+}
 
 func counterTable(rows int) string {
 	var b strings.Builder
